@@ -175,6 +175,8 @@ fn check_value<T: Valid + DeserializeOwned>(v: &Value) -> Result<Option<T>, Fail
     if let Ok(x) = &b {
         x.valid()?;
     }
+    // the same tree through a format that is not human readable
+    check_binary::<T>(v)?;
     Ok(a.ok().or(b.ok()))
 }
 
@@ -327,6 +329,13 @@ fn run_ints_for<N: Nt + Valid + DeserializeOwned + Serialize>(ctx: &Ctx, subs: &
     for k in 0..70usize {
         sub.eval(1 << 41, || json!({"kind": "int_other_carrier", "type": N::NAME, "carrier": k}), || int_other_carriers::<N>(k));
     }
+    let mut x = -300i128;
+    while x <= 65536 {
+        sub.eval(x.unsigned_abs(), || json!({"kind": "int_in_place", "type": N::NAME, "value": x as i64}), || check_in_place::<N>(x));
+        let v = json!(x as i64);
+        sub.eval(x.unsigned_abs(), || json!({"kind": "binary", "type": N::NAME, "input": v}), || check_binary::<N>(&v).map(|_| true));
+        x += if x < 300 || (16000..16700).contains(&x) { 1 } else { 97 * st };
+    }
     for val in 0..=N::MAXV {
         let n = N::new_repr(val);
         sub.eval(val, || rt_json(&n), || {
@@ -341,6 +350,108 @@ fn run_ints_for<N: Nt + Valid + DeserializeOwned + Serialize>(ctx: &Ctx, subs: &
 
 fn int_json_val(b: i128) -> Value {
     crate::engine::int_json(b)
+}
+
+
+// ---------------------------------------------------------------------------------------------
+// A non-human-readable deserializer over a JSON value tree (formats like bincode / postcard report
+// `is_human_readable() == false`; impls may branch on it), and `deserialize_in_place`.
+// ---------------------------------------------------------------------------------------------
+
+pub struct Bin<'a>(pub &'a Value);
+
+impl<'de, 'a> serde::Deserializer<'de> for Bin<'a> {
+    type Error = VErr;
+    fn is_human_readable(&self) -> bool {
+        false
+    }
+    fn deserialize_any<V: serde::de::Visitor<'de>>(self, visitor: V) -> Result<V::Value, VErr> {
+        use serde::de::value::{MapDeserializer, SeqDeserializer};
+        match self.0 {
+            Value::Null => visitor.visit_unit(),
+            Value::Bool(b) => visitor.visit_bool(*b),
+            Value::Number(n) => {
+                if let Some(u) = n.as_u64() {
+                    visitor.visit_u64(u)
+                } else if let Some(i) = n.as_i64() {
+                    visitor.visit_i64(i)
+                } else {
+                    visitor.visit_f64(n.as_f64().unwrap_or(0.0))
+                }
+            }
+            Value::String(s) => visitor.visit_str(s),
+            Value::Array(a) => visitor.visit_seq(SeqDeserializer::new(a.iter().map(BinInto))),
+            Value::Object(m) => visitor.visit_map(MapDeserializer::new(m.iter().map(|(k, v)| (k.as_str(), BinInto(v))))),
+        }
+    }
+    fn deserialize_option<V: serde::de::Visitor<'de>>(self, visitor: V) -> Result<V::Value, VErr> {
+        if self.0.is_null() {
+            visitor.visit_none()
+        } else {
+            visitor.visit_some(self)
+        }
+    }
+    fn deserialize_newtype_struct<V: serde::de::Visitor<'de>>(self, _name: &'static str, visitor: V) -> Result<V::Value, VErr> {
+        visitor.visit_newtype_struct(self)
+    }
+    fn deserialize_enum<V: serde::de::Visitor<'de>>(self, _name: &'static str, _variants: &'static [&'static str], visitor: V) -> Result<V::Value, VErr> {
+        use serde::de::value::MapAccessDeserializer;
+        use serde::de::IntoDeserializer as _;
+        match self.0 {
+            Value::String(s) => visitor.visit_enum(s.as_str().into_deserializer()),
+            Value::Number(n) if n.as_u64().is_some() => visitor.visit_enum((n.as_u64().unwrap() as u32).into_deserializer()),
+            Value::Object(m) if m.len() == 1 => {
+                let md = serde::de::value::MapDeserializer::new(m.iter().map(|(k, v)| (k.as_str(), BinInto(v))));
+                visitor.visit_enum(MapAccessDeserializer::new(md))
+            }
+            _ => Err(serde::de::Error::custom("not an enum representation")),
+        }
+    }
+    serde::forward_to_deserialize_any! {
+        bool i8 i16 i32 i64 i128 u8 u16 u32 u64 u128 f32 f64 char str string bytes byte_buf unit unit_struct seq tuple tuple_struct map struct identifier ignored_any
+    }
+}
+
+#[derive(Clone, Copy)]
+pub struct BinInto<'a>(pub &'a Value);
+impl<'de, 'a> IntoDeserializer<'de, VErr> for BinInto<'a> {
+    type Deserializer = Bin<'a>;
+    fn into_deserializer(self) -> Bin<'a> {
+        Bin(self.0)
+    }
+}
+
+/// whatever a non-human-readable format yields must be valid as well
+fn check_binary<T: Valid + DeserializeOwned>(v: &Value) -> Result<bool, Fail> {
+    match T::deserialize(Bin(v)) {
+        Ok(x) => {
+            x.valid().map_err(|f| Fail { sig: format!("{}/non_human_readable_format", f.sig), detail: format!("input {} through a deserializer with is_human_readable() == false: {}", v, f.detail) })?;
+            Ok(true)
+        }
+        Err(_) => Ok(false),
+    }
+}
+
+/// `Deserialize::deserialize_in_place` must enforce the same invariants (or leave a valid value)
+fn check_in_place<N: Nt + Valid + DeserializeOwned>(x: i128) -> CheckResult {
+    let mut place = N::new_repr(1);
+    let r = match u16::try_from(x) {
+        Ok(p) => {
+            let d: <u16 as IntoDeserializer<VErr>>::Deserializer = p.into_deserializer();
+            serde::Deserialize::deserialize_in_place(d, &mut place)
+        }
+        Err(_) => {
+            let d: <i64 as IntoDeserializer<VErr>>::Deserializer = (x as i64).into_deserializer();
+            serde::Deserialize::deserialize_in_place(d, &mut place)
+        }
+    };
+    place.valid().map_err(|f| Fail { sig: format!("{}/deserialize_in_place", f.sig), detail: format!("deserialize_in_place({}) left {:?} (result {:?})", x, place, r.is_ok()) })?;
+    let in_range = x >= 0 && (x as u128) <= N::MAXV;
+    ensure!(r.is_ok() == in_range, format!("{}/deserialize_in_place_acceptance", N::NAME), "deserialize_in_place({}) is_ok={}", x, r.is_ok());
+    if r.is_ok() {
+        ensure!(place.getw() as i128 == x, format!("{}/deserialize_in_place_value", N::NAME), "deserialize_in_place({}) stored {:?}", x, place);
+    }
+    Ok(!in_range)
 }
 
 // --- enums ------------------------------------------------------------------------------------
@@ -1034,6 +1145,12 @@ pub fn replay_c19(_sub: &str, case: &Value) -> Option<CheckResult> {
             macro_rules! t { ($($n:ident),*) => { match case["type"].as_str()? { $( stringify!($n) => Some(int_typed::<$n>(&src, x)), )* _ => None } }; }
             t!(U4, U7, U14, Channel, KeyNumber, ControllerNumber)
         }
+        "int_in_place" => {
+            let x = json_int(&case["value"])?;
+            macro_rules! t { ($($n:ident),*) => { match case["type"].as_str()? { $( stringify!($n) => Some(check_in_place::<$n>(x)), )* _ => None } }; }
+            t!(U4, U7, U14, Channel, KeyNumber, ControllerNumber)
+        }
+        "binary" => Some(check_tree_value(case["type"].as_str()?, &case["input"])),
         "int_other_carrier" => {
             let k = json_u64(&case["carrier"])? as usize;
             macro_rules! t { ($($n:ident),*) => { match case["type"].as_str()? { $( stringify!($n) => Some(int_other_carriers::<$n>(k)), )* _ => None } }; }
